@@ -2,7 +2,7 @@
 (***************************************************************************)
 (* Trace validation for Ila.  Per-cycle records from the real              *)
 (* IntegratedLogicAnalyzer:                                                *)
-(*   [trigger, d, addr            -- inputs applied in this cycle           *)
+(*   [trigger, d, addr, rst       -- inputs applied in this cycle           *)
 (*    sampling, complete, sample] -- outputs observed before the clock edge *)
 (* A trace is [cfg |-> [depth |-> D, pre |-> P], steps |-> <<records>>].   *)
 (***************************************************************************)
@@ -17,11 +17,10 @@ ASSUME \A i \in 1..Len(Logs) : TLCSet(i, <<0, "ok">>)
 
 Rec == Logs[tid].steps[l]
 
-InputOf(r) == [trigger |-> r.trigger, d |-> r.d, addr |-> r.addr]
+InputOf(r) == [trigger |-> r.trigger, d |-> r.d, addr |-> r.addr, rst |-> r.rst]
 
 Failing(r) ==
-    IF r.addr >= Depth THEN "env_illegal_addr"
-    ELSE IF r.sampling # Sampling THEN "sampling"
+    IF r.sampling # Sampling THEN "sampling"
     ELSE IF r.complete /\ ~done THEN "complete_before_last_sample"
     ELSE IF ~r.complete /\ cmp /\ done THEN "complete_dropped"
     ELSE IF ~r.complete /\ done /\ lag >= MaxLag THEN "complete_not_raised"
